@@ -2,7 +2,7 @@ SPECIFICATION Spec
 CONSTANTS
   Fault = "none"
   Kinds <- AllKinds
-  Comps <- AllComps
+  Comps <- KindComps
   Intervals <- Iv4
   MaxActs = 7
   MaxSets = 2
